@@ -1,6 +1,7 @@
 """C04 - aggregates per group (narrow claim: the aggregator tables and the checked SUM chain)."""
 from rules import tables as T
 from rules import chk as K
+from rules import filtering as FL
 
 
 def run(ctx):
@@ -8,13 +9,15 @@ def run(ctx):
     ctx.run(T.tbl16_aggregator_operations)
     ctx.run(T.tbl14_aggregate_merge_table)
     ctx.run(K.chk8_sum)
+    ctx.run(FL.flw23_filter_exactly_once)
     return ctx.finish(
         'Syntax-tree table rules: an aggregate keeps its kind from the SQL text (COUNT/SUM/MIN/MAX, '
         'AVG = SUM / COUNT) through the planner to the operator; each aggregator marker type accumulates '
         'and combines with its own operation from its neutral element; partial aggregates of two '
         'partitions are merged with the operation of their own aggregator, a NULL partial result yields '
         'the other side, and the merge plan passes every aggregate column its own aggregator; integer '
-        'SUM stays on the checked chain (C06). These are necessary conditions of "the answer is the '
+        'SUM stays on the checked chain (C06); the WHERE filter is applied exactly once to grouping keys '
+        'and aggregate inputs (FLW-23). These are necessary conditions of "the answer is the '
         'same whether the table is one partition or many". Group identity, the values of COUNT / SUM / '
         'MIN / MAX / AVG per group, NULL groups and the sorted-merge precondition are properties of '
         'computed data and are NOT decided.',
